@@ -154,6 +154,16 @@ func (x *Exec) solveOne(o *Obligation, q string, opts SolveOpts) *CheckResult {
 		res.Output = o.Src
 		return res
 	}
+	if o.Synt {
+		res.Backend = "ssa-scan"
+		if o.Goal == "true" {
+			res.Status = "unsat"
+		} else {
+			res.Status = "sat"
+			res.Output = o.Src
+		}
+		return res
+	}
 	ctx := context.Background()
 	// stage 1: z3 4.8.12, short timeout
 	first := opts.FirstMs
